@@ -9,6 +9,7 @@ import TantivyModel.Proofs.GrammarCharsNested
 import TantivyModel.Proofs.GrammarCharsBoost
 import TantivyModel.Proofs.GrammarCharsText
 import TantivyModel.Proofs.GrammarCharsLenientTotal
+import TantivyModel.Proofs.GrammarCharsLenientLeaf
 import TantivyModel.Proofs.GrammarFoldSafe
 import TantivyModel.Proofs.GrammarFoldSafeN
 import TantivyModel.Model.Grammar.Agree
@@ -742,6 +743,18 @@ example : pAst false 8 ['f', ':', '(', 'a', ' ', 'b', ')'] = .ok (.clause [(none
 
 The harness compares `parseLenient` with the real `parse_query_lenient` (tree and number of
 errors) on every generated string, and evaluates the statement below on every string. -/
+
+/-- **strict and lenient agree at leaf level, for all words**: the lenient grammar (with or without
+    its loop guard) reads every word of ASCII letters and digits that is not a keyword as the strict
+    grammar does (`C16_print_parse_leaf`) — the same tree and no error. The ∀ part of
+    `C16_lenient_agrees_chars` proved so far; by step lemmas through `wordInfChars`, `wordInf`,
+    `simpleTermInf`, `termOrPhraseInf`, `literalNoGroupInf`, `leafInf`, `operandInf`, `sepLoop`,
+    `astInf`. -/
+theorem C16_lenient_agrees_leaf (gs gl : Bool) (w : Str) (h : PlainWord w) :
+    ∃ t, parseStrictWith gs w = .tree t ∧ parseLenientWith gl w = .tree t 0 :=
+  ⟨_, parseStrictWith_plain gs w h, parseLenientWith_plain gl w h⟩
+
+example : featureFree ['a', 'b', 'c'] = true ∧ PlainWord ['a', 'b', 'c'] := ⟨rfl, plainWord_abc⟩
 
 /- Full statement (not proved; evaluated by the harness on every generated text — real parsers
    and Lean models — as the executable predicate `agreesOn`):
